@@ -110,11 +110,24 @@ def checkDepartures (cfg : Cfg) (a : A) (mustDepart : Option Nat) (evs : List Ev
   -- an observer that itself leaves in this segment is owed nothing
   let observers := a.mods.filter (fun m => m.alive && subscribed m cfg.mtClosed && ready a m && !a.failing m.uid &&
       !xs.contains m.uid)
-  xs.foldl (fun a v =>
+  let a := xs.foldl (fun a v =>
     observers.foldl (fun a o =>
       if o.uid == v then a
       else a.chk ((notices.filter (fun p => p.1 == o.uid && p.2 == v)).length == 1) "C07"
         s!"observer {o.uid} did not get exactly one CLIENT_CLOSED about {v}") a) a
+  -- C14: CLIENT_CLOSED is a message like any other: a subscriber of it that is not ready to accept data (and is not a
+  -- logger, which is waited for) is owed a FAILED_MESSAGE naming it, once per departure, at every FAILED_MESSAGE
+  -- subscriber that can take it.  Modules that themselves leave in this segment are owed / owe nothing.
+  let owed := a.mods.filter (fun m => m.alive && subscribed m cfg.mtClosed && !m.isLogger && !a.w.contains m.uid &&
+      !xs.contains m.uid)
+  let fobs := a.mods.filter (fun m => m.alive && subscribed m cfg.mtFailed && ready a m && !a.failing m.uid &&
+      !xs.contains m.uid)
+  fobs.foldl (fun a o =>
+    owed.foldl (fun a m =>
+      let want := xs.length * (owed.filter (·.modId == m.modId)).length
+      let got := ((sends evs).filter (fun p => p.1 == o.uid && p.2.2.body == .failed m.modId cfg.mtClosed 0 0)).length
+      a.chk (got ≥ want) "C14"
+        s!"observer {o.uid} got {got} FAILED_MESSAGE notices about the CLIENT_CLOSED that subscriber id {m.modId} could not be handed, expected at least {want}") a) a
 
 def applyDepartures (a : A) (evs : List Ev) : A :=
   (closes evs).foldl (fun a v => a.upd v (fun m => { m with alive := false, connected := false })) a
